@@ -281,6 +281,60 @@ def cache_phase(run, tier, workdir, binary):
     return drift
 
 
+def runner_phase(run, tier, workdir, binary, rng, tag="runners"):
+    """Application runners inside the creation engine (C13, C09): the App's runner slice pulls the runner components in
+    first (candidate order, lazy ones included); Run is called once per runner after everything needed is published, never
+    after a failure.  Exhaustive family R + recorded real starts (conformance and monitor)."""
+    rd = os.path.join(workdir, tag)
+    os.makedirs(rd)
+    inv = ["C13_Once", "C13_AfterReady", "C13_StopAtError", "C09_FaultFails", "C04_CleanFailure"]
+    props = ["C09_NoRunnerAfterFailure"]
+    vlib.stage_specs(rd, ["Container.tla", "MCEngR.tla", "TraceContainer.tla", "MonitorContainer.tla"])
+    n_mc = 2 if tier == "quick" else 3
+    vlib.write_cfg(os.path.join(rd, "r.cfg"), constants=dict(N=n_mc, MaxLookups=0, Scenarios="<- Fam", **FIX), spec="Spec", invariants=inv, properties=props)
+    r = vlib.run_tlc(rd, "MCEngR", "r.cfg", workers=8, timeout=3000, jvm=vlib.JVM_BIG)
+    run.add_model_run("MCEngR N=%d: runner sequences x graphs x lazies x one fault" % n_mc, r)
+    if not r.ok:
+        raise vlib.Infra("family R: %s %s violated on the model: the specification needs fixing" % (r.kind, r.violated))
+    scs = []
+    for n, cnt in ([(3, 250), (4, 200), (6, 80)] if tier == "quick" else [(3, 3000), (4, 3000), (5, 1500), (6, 1000), (8, 400)]):
+        for i in range(cnt):
+            scs.append(el.rand_scenario(rng, n, p_edge=rng.choice([0.25, 0.4]), lazies=rng.choice([0, 0.4]), fails=rng.choice([0, 0.2]),
+                                        runners=rng.choice([0.3, 0.6]), sid="%s-%d-%d" % (tag, n, i)))
+    by_n = {}
+    for sc in scs:
+        by_n.setdefault(sc["n"], []).append(sc)
+    drift = 0
+    for n, group in sorted(by_n.items()):
+        tr = el.run_engine(binary, rd, group, name="r%d" % n)
+        groups = el.split_trace(tr)
+        os.remove(tr)
+        st, fails = el.validate_groups(rd, groups, "MonitorContainer", dict(N=n), ["M_C13_Runners", "M_C09_NoPanic", "M_C09_FaultFails", "M_C04_CleanFailure"], [], "rm%d" % n)
+        st2, fails2 = el.validate_groups(rd, groups, "TraceContainer", dict(N=n, MaxLookups=12, Scenarios="<- TraceScenarios", **FIX), inv, props, "rc%d" % n)
+        run.cov["states"] += st["states"] + st2["states"]
+        run.cov["transitions"] += st["generated"] + st2["generated"]
+        run.cov["traces_validated_against_impl"] += len(groups)
+        for layer, fl in (("monitor", fails), ("conformance", fails2)):
+            for f in fl:
+                sc = el.scenario_of(groups[f["group"]])
+                if f["kind"] == "postcondition":
+                    if layer == "monitor":
+                        raise vlib.Infra("monitor could not consume a trace: " + f["tlc"][:400])
+                    drift += 1
+                    if drift <= 2:
+                        vlib.log("DRIFT module=Container (runners) scenario=%s line=%d" % (sc["id"], f["line"]))
+                    continue
+                report(run, run.prop, layer, f, sc, groups[f["group"]])
+        for g in groups:
+            sc = el.scenario_of(g)
+            run.count_case({k: sc[k] for k in ("n", "single", "slice", "lazy", "fail", "runners", "rorder", "order")}, bool(sc["runners"]))
+        if groups:
+            g = next((x for x in groups if el.scenario_of(x)["runners"]), groups[0])
+            run.sample(dict(scenario={k: el.scenario_of(g)[k] for k in ("id", "n", "single", "lazy", "fail", "runners", "rorder")},
+                            events=[{k: v for k, v in json.loads(x).items() if k != "st"} for x in g[1:]][-8:]))
+    return drift
+
+
 def proof_phase(run, tier, workdir):
     """C04, unbounded part: the cache invariants are an inductive invariant of an abstraction of Cache.tla for ANY set of
     names and values (TLA+ proof system), and TLC checks that Cache.tla refines that abstraction."""
@@ -461,6 +515,7 @@ def run_check(prop, tier, replay=None):
                     rscs.append(s)
             drift += check_resolve.real_phase(run, "C09", tier, workdir, binary, rscs,
                                               ["C09_NoPanic", "C09_RequiredFails", "C09_OptionalHarmless"], [], tag="res")
+            drift += runner_phase(run, tier, workdir, binary, rng)
             ascs = [al.scenario(rng, "C09-app%d" % i, "C09") for i in range(n)]
             drift += check_app.real_phase(run, "C09", tier, workdir, binary, ascs,
                                           ["C09_NoRunnerAfterFailure", "C13_ErrorReported", "C13_StopAtError"],
